@@ -428,10 +428,29 @@ def check(idx: Index, rep: Report, tier: str) -> str:
         raise AnalysisError(f"{f.fq}: expected one self.apply call")
     p = [a.arg for a in f.node.args.args]
     at = cfg.node_of(applies[0])
-    got = [resolved_text(cfg, a, at) for a in applies[0].args]
+    def _flat(exprs, where):
+        out = []
+        for a in exprs:
+            star = isinstance(a, ast.Starred)
+            t = resolved_text(cfg, a.value if star else a, where)
+            if star:
+                e = ast.parse(t, mode="eval").body
+                if not isinstance(e, (ast.Tuple, ast.List)):
+                    raise AnalysisError(f"{f.fq}: `*{unparse(a.value)}` does not resolve to a literal tuple")
+                out.extend(ast.unparse(x) for x in e.elts)
+            else:
+                out.append(t)
+        return out
+
+    got = _flat(applies[0].args, at)
     want = [f"{p[1]}.clone()", f"{p[2]}.clone()"]
     rets = [n for n in walk_local(f.node) if isinstance(n, ast.Return)]
-    rgot = [resolved_text(cfg, e, cfg.node_of(rets[0])) for e in rets[0].value.elts] if rets and isinstance(rets[0].value, ast.Tuple) else []
+    if len(rets) != 1 or rets[0].value is None:
+        raise AnalysisError(f"{f.fq}: expected one return of a pair")
+    rv = ast.parse(resolved_text(cfg, rets[0].value, cfg.node_of(rets[0])), mode="eval").body
+    if not isinstance(rv, ast.Tuple):
+        raise AnalysisError(f"{f.fq}: the returned value `{ast.unparse(rv)}` does not resolve to a pair")
+    rgot = [ast.unparse(e) for e in rv.elts]
     # clone called once each (same object applied and returned)
     n_clones = len([c for c in calls_in(f.node) if call_attr(c) == "clone"])
     if got == want and rgot == want and n_clones == 2:
